@@ -640,6 +640,8 @@ class Generator:
         self.canaries = []
         self._impl_header = None
         self._canary_mods = 0
+        self.auto_stub = set(x for x in os.environ.get("VERIF_STUB_FNS", "").split("|") if x)
+        self.auto_stubbed = []
         for sf in unit.get("specs", []):
             for b in specfile.parse(os.path.join(VERIF, "contracts", sf)):
                 if b.file in unit.get("spec_skip", {}).get(sf, ()):
@@ -818,6 +820,14 @@ class Generator:
     def _emit_fn(self, it, blk, canary, extra_rules):
         relfile, src, toks, offs = self._cur
         fnpath = it.path()
+        if fnpath in getattr(self, "auto_stub", ()) and it.open is not None:
+            # graceful degradation: the annotations of this function no longer fit its text (front-end rejection); it is emitted
+            # with its contract ASSUMED so that the rest of the unit can still be verified; the check marks it undecided
+            import copy as _cp
+            blk = _cp.copy(blk) if blk is not None else specfile.Block(relfile, fnpath, True, 0, "(auto)")
+            blk.stub = "AUTO-STUB: the annotations no longer fit this function's text"
+            blk.entry, blk.loops, blk.loop_hints, blk.ats, blk.closures = [], {}, [], [], {}
+            self.auto_stubbed.append(fnpath)
         in_trait_impl = it.parent is not None and it.parent.kind == "impl" and " for " in it.parent.name
         variants = [False]
         trait_canary = None
@@ -834,7 +844,9 @@ class Generator:
                 "canary": len(variants) > 1, "line": line_of(offs, toks[it.kw].start),
                 "witness": blk.witness if blk else None, "lost_anchors": []}
         self.functions.append(info)
-        if blk is not None and blk.stub:
+        if blk is not None and blk.stub and str(blk.stub).startswith("AUTO-STUB"):
+            self.unverified.append({"file": relfile, "item": fnpath, "reason": blk.stub})
+        elif blk is not None and blk.stub:
             import hashlib
             body_sha = hashlib.sha1(" ".join(toks[k].text for k in sig_idx(toks, it.a0, it.end)).encode()).hexdigest()[:16]
             info["stub_sha"] = body_sha
@@ -1009,7 +1021,7 @@ class Generator:
             edits.before.pop(it.end - 1, None)
             edits.delete(it.open + 1, it.end - 1)
             edits.ins_after(it.open, " unimplemented!() ", sp)
-            edits.ins_before(it.a0, "#[verifier::external_body]\n", sp)
+            edits.ins_before(it.a0, "#[verifier::external_body]\n", dict(sp, f=None) if str(blk.stub).startswith("AUTO-STUB") else sp)
             return
         lo, hi = it.open + 1, it.end - 1
 
@@ -1145,6 +1157,7 @@ def generate(unit, outdir):
         "obligations": g.obligations,
         "lost_anchors": g.lost,
         "unverified": g.unverified,
+        "auto_stubbed": g.auto_stubbed,
         "unlisted": g.unlisted,
         "rewrite_log": g.rule_log,
         "missing_items": [{"file": b.file, "item": b.path, "spec": "%s:%d" % (os.path.basename(b.specfile), b.line)} for b in unused],
